@@ -33,6 +33,8 @@ struct State {
 pub struct Ctl {
     st: Mutex<State>,
     cv: Condvar,
+    /// grants issued by the scheduler to a key other than the lowest waiting one
+    pub reordered: std::sync::atomic::AtomicU64,
 }
 
 pub const WORKER: u8 = 0;
@@ -48,7 +50,7 @@ fn thread_num() -> u64 {
 
 impl Ctl {
     pub fn install() -> Arc<Ctl> {
-        let ctl = Arc::new(Ctl { st: Mutex::new(State::default()), cv: Condvar::new() });
+        let ctl = Arc::new(Ctl { st: Mutex::new(State::default()), cv: Condvar::new(), reordered: Default::default() });
         let c2 = ctl.clone();
         similari::verif_hook::set(Some(Arc::new(move |site, args| c2.at(site, args))));
         ctl
@@ -162,6 +164,46 @@ impl Ctl {
             }
         }
         true
+    }
+    /// Background scheduler: serialises the gated worker steps in an order chosen by `policy`
+    /// ("fwd": lowest shard first, "rev": highest shard first, "rand": seeded random) until stopped.
+    pub fn spawn_scheduler(self: &Arc<Self>, policy: &str, seed: u64) -> (Arc<std::sync::atomic::AtomicBool>, std::thread::JoinHandle<()>) {
+        let stop = Arc::new(std::sync::atomic::AtomicBool::new(false));
+        let stop2 = stop.clone();
+        let ctl = self.clone();
+        let policy = policy.to_string();
+        let h = std::thread::spawn(move || {
+            let mut rng = StdRng::seed_from_u64(seed);
+            while !stop2.load(std::sync::atomic::Ordering::SeqCst) {
+                let key = {
+                    let st = ctl.st.lock().unwrap();
+                    let (st, _) = ctl.cv.wait_timeout(st, Duration::from_micros(200)).unwrap();
+                    if !st.gating {
+                        continue;
+                    }
+                    let mut ws: Vec<(u8, u64)> = st.waiting.iter().filter(|(_, n)| **n > 0).map(|(k, _)| *k).collect();
+                    if ws.is_empty() {
+                        continue;
+                    }
+                    ws.sort();
+                    let k = match policy.as_str() {
+                        "fwd" => ws[0],
+                        "rev" => ws[ws.len() - 1],
+                        _ => ws[rng.gen_range(0..ws.len())],
+                    };
+                    if k != ws[0] {
+                        ctl.reordered.fetch_add(1, std::sync::atomic::Ordering::SeqCst);
+                    }
+                    k
+                };
+                // let a little time pass so that several workers are waiting and the policy has a choice
+                if policy != "fwd" {
+                    std::thread::sleep(Duration::from_micros(150));
+                }
+                ctl.grant_and_wait(key, Duration::from_secs(3));
+            }
+        });
+        (stop, h)
     }
     pub fn open_all(&self) {
         let mut st = self.st.lock().unwrap();
